@@ -271,13 +271,17 @@ pub struct RunCfg {
     /// watchdog of this run in ms (0 = the caller's default)
     #[serde(default)]
     pub watchdog_ms: u64,
+    /// pause between configuring the builder (incl. `.timeout(..)`) and `spawn_*` in ms: a timeout limits the EXECUTION
+    /// of the check, however long the configured builder was kept around
+    #[serde(default)]
+    pub spawn_delay_ms: u64,
 }
 impl RunCfg {
     pub fn new(model: ModelSpec, strategy: &str, threads: usize) -> RunCfg {
         RunCfg {
             model, strategy: strategy.into(), threads, finish_when: FwSpec::all(), target_state_count: None,
             target_max_depth: None, timeout_ms: None, perturb: 0, sim_seed: 0, chooser: "uniform".into(), script: vec![],
-            record: true, panic_seed: 0, closure_cap: 2_000_000, watchdog_ms: 0,
+            record: true, panic_seed: 0, closure_cap: 2_000_000, watchdog_ms: 0, spawn_delay_ms: 0,
         }
     }
 }
@@ -503,6 +507,9 @@ pub fn run_child(cfg: &RunCfg) -> RunOut {
     }
     if let Some(ms) = cfg.timeout_ms {
         b = b.timeout(Duration::from_millis(ms));
+    }
+    if cfg.spawn_delay_ms > 0 {
+        std::thread::sleep(Duration::from_millis(cfg.spawn_delay_ms));
     }
     let t0 = Instant::now();
     // (joined, unique, state_count, max_depth, discoveries, is_done)
